@@ -55,6 +55,7 @@ def parseOp (a r : List String) (guess : Bool) : Option Op :=
       pure (.lock ⟨← (g "k" "0").toNat?, 0, ← (g "unl" "0").toNat?⟩)
   | ["advance", e, _b] => do pure (.advance (← e.toNat?))
   | "swap" :: _ => some .noop
+  | "transfer" :: _ => some .noop
   | "bad" :: _ => if guess then none else some .noop
   | ["addLiq", _u, kl, oa, _mb, _mo, merge] => do
       let (k, la) ← parsePair kl
